@@ -18,6 +18,7 @@ type TrEnv struct {
 	macros map[string]*SExpr
 	pkg   *types.Package
 	pos   token.Pos // scope position for resolving locals (NoPos: parameters only)
+	inPat bool      // translating a trigger: use the raw select terms
 	isEntry bool
 }
 
@@ -251,8 +252,10 @@ func (x *Exec) trExpr(e *SExpr, env *TrEnv) *Term {
 		}
 		for _, pat := range e.Pats {
 			var p []*Term
+			pe2 := ne.child()
+			pe2.inPat = true
 			for _, pe := range pat {
-				p = append(p, x.trExpr(pe, ne))
+				p = append(p, x.trExpr(pe, pe2))
 			}
 			q.Pats = append(q.Pats, p)
 		}
@@ -330,6 +333,21 @@ func (x *Exec) trBinary(e *SExpr, env *TrEnv) *Term {
 	b := x.trExpr(e.Args[1], env)
 	switch e.Name {
 	case "==", "!=":
+		isNull := func(t *Term) bool { return t.Op == "null" && len(t.Args) == 0 }
+		if isNull(b) && isSliceSort(a.Sort) {
+			r := mk("isnil_"+a.Sort, SBool, a)
+			if e.Name == "!=" {
+				return Not(r)
+			}
+			return r
+		}
+		if isNull(a) && isSliceSort(b.Sort) {
+			r := mk("isnil_"+b.Sort, SBool, b)
+			if e.Name == "!=" {
+				return Not(r)
+			}
+			return r
+		}
 		a, b = x.unifyNil(a, b)
 		if a.Sort != b.Sort {
 			if a.Sort == SAny {
@@ -384,6 +402,10 @@ func (x *Exec) trIndex(e *SExpr, env *TrEnv) *Term {
 	i := x.trExpr(e.Args[1], env)
 	if a.GoType != nil {
 		if mt, ok := types.Unalias(a.GoType).Underlying().(*types.Map); ok {
+			if env.inPat {
+				_, vn, ks, vs := x.u.mapVars(mt)
+				return withType(Select(Select(x.getSt(env.st, vn, arraySort(SRef, arraySort(ks, vs))), a), i), mt.Elem())
+			}
 			v, _ := x.mapLoad(env.st, mt, a, i)
 			return v
 		}
@@ -501,6 +523,10 @@ func (x *Exec) trCall(e *SExpr, env *TrEnv) *Term {
 		k := x.trExpr(e.Args[1], env)
 		if a.GoType != nil {
 			if mt, ok := types.Unalias(a.GoType).Underlying().(*types.Map); ok {
+				if env.inPat {
+					dn, _, ks, _ := x.u.mapVars(mt)
+					return Select(Select(x.getSt(env.st, dn, arraySort(SRef, arraySort(ks, SBool))), a), k)
+				}
 				_, okT := x.mapLoad(env.st, mt, a, k)
 				return okT
 			}
@@ -552,6 +578,19 @@ func (x *Exec) trCall(e *SExpr, env *TrEnv) *Term {
 	case "fresh":
 		r := x.trExpr(e.Args[0], env)
 		return And(Neq(r, V("null", SRef)), Not(Select(x.getSt(env.old.st, "alloc", arraySort(SRef, SBool)), r)))
+	case "domheap", "valheap":
+		if len(e.Args) == 1 && e.Args[0].Kind == "str" {
+			mt := x.u.mapTypes[e.Args[0].Str]
+			if mt == nil {
+				specErr(e, "unknown map type %q (not used in this function)", e.Args[0].Str)
+			}
+			dn, vn, ks, vs := x.u.mapVars(mt)
+			if e.Name == "domheap" {
+				return x.getSt(env.st, dn, arraySort(SRef, arraySort(ks, SBool)))
+			}
+			return x.getSt(env.st, vn, arraySort(SRef, arraySort(ks, vs)))
+		}
+		specErr(e, "%s needs a map type string", e.Name)
 	case "gotype":
 		if len(e.Args) == 1 && e.Args[0].Kind == "str" {
 			name := "T." + mangle(e.Args[0].Str)
